@@ -86,6 +86,12 @@ def make_jobs(rng: random.Random, n_mut: int, n_gen: int) -> List[Tuple[str, Dic
 
 
 FIXED = [
+    # the order of push_member: a taken name is reported before the scope refuses the kind of member (compiler and reference)
+    ({"m.bitproto": "proto a\nmessage M {\n  message D { }\n  type D = uint3\n}\n"}, "m.bitproto", "duplicate-definition", "m.bitproto", 4),
+    ({"m.bitproto": "proto a\nmessage M {\n  type D = uint3\n}\n"}, "m.bitproto", "alias-in-message", "m.bitproto", 3),
+    ({"m.bitproto": "proto a\nenum E : uint3 {\n  A = 0\n  option A = 1\n}\n"}, "m.bitproto", "duplicate-definition", "m.bitproto", 4),
+    ({"m.bitproto": "proto a\nmessage M {\n  uint3 K = 1\n  const K = 2\n}\n"}, "m.bitproto", "duplicate-definition", "m.bitproto", 4),
+    ({"s.bitproto": "proto s\nconst A = 1\n", "m.bitproto": 'proto m\nconst s = 1\nmessage M {\n  import "s.bitproto"\n}\n'}, "m.bitproto", "duplicate-definition", "m.bitproto", 4),
     # (files, main, expected rule, file, line): rules about FILES hold whatever the spelling of the path
     ({"s.bitproto": "proto s\nconst A = 1\n", "m.bitproto": 'proto m\nimport "s.bitproto"\nimport again "./s.bitproto"\n'}, "m.bitproto", "duplicate-import", "m.bitproto", 3),
     ({"s.bitproto": "proto s\nconst A = 1\n", "m.bitproto": 'proto m\nimport one "./s.bitproto"\nimport two "././s.bitproto"\n'}, "m.bitproto", "duplicate-import", "m.bitproto", 3),
